@@ -76,6 +76,7 @@ type gen struct {
 	pStep   float64
 	// loopDepth counts the enclosing loops of the statement being generated
 	loopDepth int
+	maxIter   int
 }
 
 func (g *gen) leaf() plgen.Stmt {
@@ -149,7 +150,7 @@ func (g *gen) wrap(nest int) plgen.Stmt {
 		}
 		return s
 	case 1, 2:
-		n := int64(g.r.Intn(4))
+		n := int64(g.r.Intn(g.maxIter))
 		v := fmt.Sprintf("i%d", nest)
 		g.loopDepth++
 		body := g.block(nest+1, 3)
@@ -184,7 +185,10 @@ func (g *gen) wrap(nest int) plgen.Stmt {
 
 func (Prop) Generate(seed uint64, tier string) *core.Plan {
 	r := simrt.NewRNG(seed)
-	g := &gen{r: r, maxNest: r.Intn(3)}
+	g := &gen{r: r, maxNest: r.Intn(3), maxIter: 4}
+	if r.Intn(20) == 0 {
+		g.maxIter = 13 // occasionally long loops (N-th iteration effects)
+	}
 	g.pExit = []float64{0, 0.04, 0.1}[r.Intn(3)]
 	g.pStep = []float64{0.05, 0.12, 0.2}[r.Intn(3)]
 	w := Workload{Scripts: map[string][]plgen.Stmt{}}
